@@ -15,7 +15,7 @@ structure VView.WF (sh : List Nat) (v : VView) : Prop where
   inBuf : ∃ n, sh[v.buf]? = some n ∧
     match v.indices with
     | none => v.length ≤ n
-    | some idx => idx.length = v.length ∧ (∀ r ∈ idx, r < n)
+    | some idx => idx.length = v.length ∧ (∀ r ∈ idx, r < n) ∧ idx.Pairwise (· < ·)
 
 def rowAt (h : VHeap) (b p : Nat) : List Int := ((h[b]?.getD [])[p]?).getD []
 
@@ -48,7 +48,7 @@ theorem VView.WF.slot {sh : List Nat} {v : VView} (w : v.WF sh) {i : Nat} (hi : 
     simp only [hidx] at hm ⊢
     have hil : i < idx.length := by omega
     refine ⟨by simp [List.getElem?_eq_getElem hil, List.getD_eq_getElem?_getD], n, hn, ?_⟩
-    apply hm.2
+    apply hm.2.1
     simp [List.getD_eq_getElem?_getD, List.getElem?_eq_getElem hil]
 
 theorem vshape_getElem? (h : VHeap) (b : Nat) : (vshape h)[b]? = (h[b]?).map List.length := by
@@ -189,7 +189,7 @@ theorem getmaskV_refines {h : VHeap} {v : VView} (w : v.WF (vshape h)) (hun : v.
       simp only
       omega
     · simp only
-      exact ⟨trivial, fun r hr => by have := maskIndices_mem hr; omega⟩
+      exact ⟨trivial, fun r hr => by have := maskIndices_mem hr; omega, maskIndices_pairwise _⟩
 
 /-- every write through a read-only variable array (or a reference / copy derived from one, which inherits
     `_writable`) raises and leaves every row as it was -/
